@@ -31,7 +31,7 @@ pub struct Config {
     pub imp: Impl,
     pub pbase: u64,
     pub policy: Policy,
-    pub variant: char, // 'A' nesting, 'B' edges
+    pub variant: char, // 'A' nesting, 'B' edges, 'C' index relations
     pub alias: bool,   // recursive mapper built with new_unchecked from an alias of the level-4 table (not its recursive address)
 }
 impl Config {
@@ -72,7 +72,14 @@ fn va4(p4: u64, p3: u64, p2: u64, p1: u64) -> u64 {
 }
 
 pub fn alphabet(cfg: &Config) -> Alpha {
-    let pages: Vec<(u8, u64)> = if cfg.variant == 'A' {
+    let pages: Vec<(u8, u64)> = if cfg.variant == 'C' {
+        // relations between indices: equal indices at two, three or four levels, swapped index pairs
+        vec![
+            (2, va4(3, 3, 0, 0)), (2, va4(5, 5, 0, 0)),
+            (1, va4(3, 3, 3, 0)), (1, va4(3, 5, 5, 0)), (1, va4(5, 5, 3, 0)),
+            (0, va4(3, 3, 3, 3)), (0, va4(3, 3, 3, 4)), (0, va4(3, 5, 5, 5)), (0, va4(3, 5, 3, 5)), (0, va4(5, 3, 5, 3)), (0, va4(5, 5, 5, 5)),
+        ]
+    } else if cfg.variant == 'A' {
         vec![
             (2, va4(3, 5, 0, 0)), (2, va4(3, 6, 0, 0)),
             (1, va4(3, 5, 7, 0)), (1, va4(3, 5, 8, 0)), (1, va4(3, 6, 7, 0)),
@@ -86,6 +93,10 @@ pub fn alphabet(cfg: &Config) -> Alpha {
         ]
     };
     let mut pages = pages;
+    if let (Impl::Recursive(r), 'C') = (cfg.imp, cfg.variant) {
+        // the recursive slot itself cannot be mapped through
+        pages.retain(|&(_, a)| (a >> 39) & 0x1ff != r as u64);
+    }
     if let (Impl::Recursive(r), 'A') = (cfg.imp, cfg.variant) {
         // pages whose level-3 / level-2 / level-1 index equals the recursive index (only the level-4 slot R is special)
         let r = r as u64;
@@ -112,7 +123,22 @@ pub fn alphabet(cfg: &Config) -> Alpha {
             ident.push((s, a));
         }
     }
-    let ranges: Vec<(u64, u64)> = if cfg.variant == 'A' {
+    let ranges: Vec<(u64, u64)> = if cfg.variant == 'C' {
+        vec![
+            (va4(3, 3, 3, 4), va4(3, 3, 3, 3)),             // empty
+            (va4(3, 3, 3, 3), va4(3, 3, 3, 3)),             // single page
+            (va4(3, 3, 3, 0), va4(3, 3, 3, 511)),           // exactly one L1 table
+            (va4(3, 3, 3, 3), va4(3, 5, 5, 5)),             // from one "diagonal" page to another
+            (va4(3, 5, 3, 5), va4(3, 5, 5, 5)),
+            (va4(3, 3, 0, 0), va4(3, 3, 511, 511)),         // one L2 table
+            (va4(3, 0, 0, 0), va4(3, 511, 511, 511)),       // one L3 table
+            (va4(5, 0, 0, 0), va4(5, 511, 511, 511)),       // the other L3 table
+            (va4(3, 5, 5, 5), va4(5, 3, 5, 3)),
+            (va4(5, 5, 5, 5), va4(5, 5, 5, 5)),
+            (va4(0, 0, 0, 0), va4(255, 511, 511, 511)),
+            (va4(0, 0, 0, 0), va4(511, 511, 511, 511)),
+        ]
+    } else if cfg.variant == 'A' {
         vec![
             (va4(3, 5, 7, 10), va4(3, 5, 7, 9)),            // empty
             (va4(3, 5, 7, 9), va4(3, 5, 7, 9)),             // single page
